@@ -11,10 +11,17 @@
    suffix length 0, suffix longer than the resource, weak If-Range) must violate it.
 2. spec -> code: TLC exports the model's cases (request header texts x representation); they are
    executed on the real Response.make_conditional / send_file / is_resource_modified.
+   Growth: family "rangecond" (Range combined with If-None-Match / If-Modified-Since / If-Match; the code as it was --
+   Range processed first -- must violate RangeCond Complete304).
 3. code -> spec: the validator product, the If-Range family, every range spec around every resource
    length x body shape (list, generator, wrap_file over BytesIO, non-seekable reader) x block size,
    every block composition with empty blocks, and seeded random cases are run on the real code;
    ConditionalTrace.tla (TLC) parses the header texts itself and judges every recorded outcome.
+   Growth: Range + validators (clauses RangeCond/..); FileValidators.tla: send_file / send_from_directory /
+   SharedDataMiddleware over a real temporary tree (first response, then the request carrying its validators after
+   no change / size / mtime +1 s / +-0.5 s inside and across a second; every range spec on files of length 0..N;
+   conditional=False, X-Sendfile; clauses File/.., other generation rules as drift); add_etag / set_etag / get_etag /
+   freeze followed by If-None-Match / If-Match (clauses EtagApi/..).
 """
 from __future__ import annotations
 
@@ -133,9 +140,11 @@ def run(ctx: Ctx):
                 "range spec around every length x shape x block size, block compositions with empty blocks, seeded random cases; "
                 "non-trivial = distinct cases answered 206 / 304 / 412 / 416")
     ctx.assumptions += [
-        "domain: one of If-None-Match / If-Match per request, If-Match only against responses with an ETag; Range is combined with "
-        "If-Range only (Range together with If-None-Match / If-Modified-Since is not judged: werkzeug answers 206 where RFC 7232 "
-        "section 6 evaluates the validators first)",
+        "domain: one of If-None-Match / If-Match per request, If-Match only against responses with an ETag; Range + If-Range + "
+        "validators all three together are not generated (Range + validators: RFC 7233 3.1, the validators decide first)",
+        "files: a private temporary directory, mtimes set with os.utime(ns=..) in 2024; generated ETags must change with size or "
+        "mtime-second and stay for an identical (path, size, mtime); a change of the sub-second part alone with equal size is accepted "
+        "either way; Cache-Control / Expires / ETag shape / X-Sendfile rules are drift, not verdicts",
         "header texts carry no leading / trailing white space; white space is SP / HTAB; dates are IMF-fixdate or the numeric-zone "
         "RFC 2822 form (other forms accepted by email.utils are not generated)",
         "accepted either way (documentation / RFC leave it open): malformed If-None-Match / If-Match lists (incl. lower-case w/, "
@@ -149,9 +158,11 @@ def run(ctx: Ctx):
     # 1. model checking
     jobs = [("MCRangeBody", "MCRB_Q_fixed", False), ("MCConditional", "MCQ_validators", False), ("MCConditional", "MCQ_ranges", False),
             ("MCRangeBody", "MCRB_Q_orig", True)]
-    jobs += [("MCConditional", "MCV_" + d, True) for d in ("im_star", "suffix0", "oversuffix", "ifr_weak", "ims_lt", "no_prec", "off_by_one")]
+    jobs += [("MCConditional", "MCV_" + d, True) for d in ("im_star", "suffix0", "oversuffix", "ifr_weak", "ims_lt", "no_prec", "off_by_one",
+                                                           "range_first")]
+    jobs.append(("MCConditional", "MCQ_rangecond", False))
     if not q:
-        jobs = [("MCRangeBody", "MCRB_T_fixed", False), ("MCConditional", "MCT_ranges", False)] + jobs
+        jobs = [("MCRangeBody", "MCRB_T_fixed", False), ("MCConditional", "MCT_ranges", False), ("MCConditional", "MCT_rangecond", False)] + jobs
     _model_checks(ctx, jobs)
     ctx.exhaustive = True
     ctx.notes["phase_s"] = {"model_check": round(ctx.elapsed(), 1)}
@@ -159,11 +170,12 @@ def run(ctx: Ctx):
     rng = random.Random(ctx.seed)
     cases = []
     exported = 0
-    for cfg in (("MCX_validators", "MCX_ranges") if q else ("MCXT_validators", "MCXT_ranges")):
+    for cfg in (("MCX_validators", "MCX_ranges") if q else ("MCXT_validators", "MCXT_ranges", "MCXT_rangecond")):
         vals = [v for v in ctx.export(AREA, "MCConditional", cfg, count_states=False, timeout=3000) if isinstance(v, dict) and "req" in v]
         exported += len(vals)
-        if q and len(vals) > 4000:
-            vals = rng.sample(vals, 4000)
+        cap = (2000 if "rangecond" in cfg else 4000) if q else (30000 if "rangecond" in cfg else 10 ** 9)
+        if len(vals) > cap:
+            vals = rng.sample(vals, cap)
         cases += [cd.case_of_model(v) for v in vals]
     vals = [v for v in ctx.export(AREA, "MCRangeBody", "MCRBX_q" if q else "MCRBX_t", count_states=False, timeout=3000)
             if isinstance(v, dict) and "src" in v]
@@ -191,11 +203,20 @@ def run(ctx: Ctx):
                               "range": rg})
     for _ in range(3000 if q else 100000):
         cases.append(cd.random_case(rng))
+    # growth: Range + validators (RangeCond/..), validators generated from real files (File/..), the ETag API (EtagApi/..)
+    grown = len(cases)
+    cases += cd.rangecond_cases((1,), wide=False) if q else cd.rangecond_cases()
+    cases += cd.filesc_cases(wide=not q)
+    cases += cd.filerange_cases(2 if q else 9)
+    cases += cd.etag_cases(wide=not q, rng=rng)
+    ctx.notes["growth_cases"] = len(cases) - grown
     judge_cases(ctx, cases)
 
 
 def replay(ctx: Ctx, data):
     c = data["case"]["case"]
+    if isinstance(c.get("cfg"), dict) and c["cfg"].get("lm_given"):
+        c["cfg"]["lm_given"] = tuple(c["cfg"]["lm_given"])
     ctx.sample(data["case"])
     judge_cases(ctx, [c], kind=data.get("kind", "c11"))
     ctx.nontrivial.update({("replay", 0), ("replay", 1)})
